@@ -112,7 +112,7 @@ def finish_info(col, it):
     col.info.setdefault("files_consulted", {}).update(it.files_read)
 
 
-def include(col, modname, fname, kwargs, oid, why, select=None):
+def include(col, modname, fname, kwargs, oid, why, select=None, select_oid=None):
     """run a task of a neighbouring property inside this property's check and record its obligations under `oid`:
     clauses another property's machinery decides but which are necessary conditions of this property too (stated in `why`)"""
     import importlib
@@ -123,6 +123,8 @@ def include(col, modname, fname, kwargs, oid, why, select=None):
     n = 0
     for o in sub.obs:
         if select is not None and not select(o):
+            continue
+        if select_oid is not None and o["oid"] not in (select_oid, "task"):
             continue
         o = dict(o)
         o["rule"] = "%s [%s; decided by the %s machinery, obligation %s]" % (o["rule"], why, modname.upper(), o["oid"])
